@@ -6,13 +6,13 @@ VERIF = os.path.dirname(os.path.abspath(__file__))
 CHECKS = {
  # id: (level category, technique, level text, level note, design ref)
  "C01": ("exploration", "property-based testing against a sorted-set reference model (proptest, regime-directed generators) + complete small-scope enumeration + piecewise periodic vectors beyond 2^32 bits against a closed-form model",
-         "Every query of the plain bitvector is compared with an independent sorted-set model on generated bit sequences that are directed at the internal regimes (short/long select superblocks for ones and zeros, partial words/blocks, many superblocks), built through 11 public routes; every bit string up to length 12 (16 thorough) is enumerated with every argument; 1 (3 thorough) piecewise periodic vectors of 2^32..2^33 bits per build configuration are compared with closed formulas around zone edges and 2^31/2^32/2^33. Held-on-everything-explored, not a proof.",
+         "Every query of the plain bitvector is compared with an independent sorted-set model on generated bit sequences that are directed at the internal regimes (short/long select superblocks for ones and zeros, partial words/blocks, many superblocks), built through 11 public routes; every bit string up to length 12 (16 thorough) is enumerated with every argument; 1 (3 thorough) piecewise periodic vectors of 2^32..2^33 bits per build configuration are compared with closed formulas around zone edges and 2^31/2^32/2^33; the public building blocks (RankSupport::rank, SelectSupport::<Identity|Complement>::select) are asked directly at valid arguments; clone_from and the conversion back to a raw vector are part of the comparison. Held-on-everything-explored, not a proof.",
          "Trusts the reference model (binary search on a sorted position list) and rustc; generated vectors limited to 450k bits quick / 2M bits thorough; above 20k bits arguments are structural edges + sampled.", "DESIGN.md §3 C01"),
  "C08": ("exploration", "program-level property-based testing (generated call programs with arbitrary arguments over an object heap) under process-level monitors (std unsafe-precondition checks, signals) with per-case worker isolation; coverage-guided libFuzzer+ASan campaign of the same interpreter in the thorough tier",
          "Generated programs call every safe entry point of every structure with arbitrary arguments (tail offsets, extreme indexes, arbitrary iterator scripts, arbitrary builder sequences, stale and fresh supports through their public building blocks, conversions into plain vectors also from multisets, reloads, byte vectors read back as strings, mapped views at structure starts / outside the file / on truncated files). Panics are legal; a str that is not UTF-8 is a violation; the process must survive with every unchecked slice access checked against the slice length by the standard library's precondition checks, under release arithmetic and under overflow checks; mapped views must lie inside the map.",
          "The monitor sees accesses outside a slice, not logically-wrong accesses inside one; unsafe fns are called only within their contracts; allocation sizes are bounded.", "DESIGN.md §3 C08"),
  "C20": ("exploration", "stress testing with generated thread/call configurations and a process-wide uniqueness invariant over the whole call history (schedules sampled by the OS, not enumerated)",
-         "Generated bursts (2..64 threads x up to 5000 calls, barrier released, 16 bursts concurrently; name parts empty, long, non-ASCII, with dots and spaces) call temp_file_name, and in 30% of the cases fresh child processes make their very first calls from 2..16 spinning threads at once; the invariant - no path ever returned twice in the process, every path contains the caller's name part - is checked over the complete history. This family cannot own the schedule of an unmodified atomic; the bursts were measured to expose a load+store counter in 20/20 rounds.",
+         "Generated bursts (2..64 threads x up to 5000 calls, barrier released, 16 bursts concurrently; name parts empty, long, non-ASCII, with dots and spaces, differing only by trailing digits; sometimes with files planted under the next few names) call temp_file_name, and in 30% of the cases fresh child processes make their very first calls from 2..16 spinning threads at once; the invariant - no path ever returned twice in the process, every path contains the caller's name part - is checked over the complete history. This family cannot own the schedule of an unmodified atomic; the bursts were measured to expose a load+store counter in 20/20 rounds.",
          "Schedules are sampled, not enumerated: a lost update needing a rarer interleaving than the bursts provoke can be missed; replay re-samples schedules.", "DESIGN.md §3 C20"),
  "C09": ("exploration", "property-based testing with extreme-argument generators against the documented out-of-range answers and the reference models, three-type differential, in two arithmetic configurations with per-case process isolation",
          "Every query of the three bitvector types, of huge sparse / run-length vectors, of the wavelet matrix and its core is asked at {0,1,len-1,len,len+1,2len,count+-1,2^63,MAX-1,MAX,...} and must give the documented answer without panicking; nth/nth_back beyond the remainder must exhaust fresh, partly consumed and positioned iterators; constructors must accept exactly the valid widths. Run with overflow checks on (a wrapped addition is a panic) and with release arithmetic + std unsafe-precondition checks (a wrapped addition is a wrong answer or an abort), each case in a worker process.",
@@ -33,7 +33,7 @@ CHECKS = {
          "Generated histories of valid and invalid calls on SparseBuilder and RLBuilder are interpreted against models: acceptance must match, every observer must equal the model after every call, conversion succeeds iff allowed, and the resulting vector must hold exactly the accepted positions and equal the vector of a shadow builder that never saw the rejected calls.",
          "Unsafe *_unchecked calls only inside their contracts; try_set(start<len, 0) may answer either way.", "DESIGN.md §3 C16"),
  "C18": ("exploration", "property-based testing of map/drop cycles with a process-level monitor (/proc/self/maps, std unsafe-precondition checks) in per-shard worker processes",
-         "For generated file sizes (0, sub-page, page multiples +-8, not divisible by 8, missing, a directory), modes and cycle counts: refusal where documented, the slice equals the file over its whole length, /proc/self/maps lists the mapping while alive and no byte of it after drop, writes through a mutable map reach the file.",
+         "For generated file sizes (0, sub-page, page multiples +-8, not divisible by 8, missing, a directory, through a symbolic link), modes and cycle counts: refusal where documented, the slice equals the file over its whole length, /proc/self/maps lists the mapping while alive and no byte of it after drop, writes through a mutable map reach the file.",
          "Linux /proc only; OS refusals provoked with an empty file and a directory.", "DESIGN.md §3 C18"),
  "C13": ("exploration", "round-trip/differential property testing of mapped views against loaded values over generated multi-structure files, with enumeration of bad offsets and element-granular truncations",
          "Files of 1..6 concatenated mappable structures (both mapping modes) are mapped structure by structure: content must equal the in-memory value through every accessor, views must tile the file exactly, six out-of-file offsets per structure must be refused with Err (not a panic), and for every truncation the cut structure must be refused while earlier ones still map.",
